@@ -276,7 +276,7 @@ func envelope(p *probe, env *sx.V, viol func(string, string)) {
 		if !ok {
 			p2 := *p
 			_ = p2
-			repFinding("C14-F2", fmt.Sprintf("message %s: Cc %q is answered as %d address structures (address lists are split on every comma, also inside a quoted display name)", p.tok, cc, len(c.L)), p)
+			viol("envelope", fmt.Sprintf("Cc %q is answered as %d address structures", cc, len(c.L)))
 		}
 	}
 }
